@@ -368,7 +368,7 @@ def categories(r):
         c.append("cut:" + k)
     if r["scn"]["bom"] != "none" and r["scn"]["label"] not in ("auto", "none"):
         c.append("mark+label")
-    if r["scn"]["enc"] in ("l1", "sj") or r["eff"] in ("l1", "sj"):
+    if r["eff"] in ("l1", "sj"):
         c.append("table:" + r["eff"])
     return c
 
@@ -449,6 +449,28 @@ def mutant_must_fail(tables):
         raise vlib.ToolError("the mutant decoder machine was not rejected by TLC (rc=%d)" % res.rc)
 
 
+def coverage_run(chk, tables):
+    """Small bounds with TLC's -coverage: every action of the machine must have been taken."""
+    res = vlib.tlc("search/MCTranscode", "C17_cov", workers=4, timeout=600, env={"C17_TABLES": tables}, coverage=True)
+    if res.rc != 0:
+        raise vlib.ToolError("Transcode design invariant failed in C17_cov:\n" + res.tail(60))
+    chk.add_tlc(res)
+    chk.never_taken = res.coverage_zero()
+    if chk.never_taken:
+        raise vlib.ToolError("actions of Transcode never taken: %s" % chk.never_taken)
+
+
+def design_run(chk, tables):
+    """Design level only (nothing emitted): the fragmenting machine against Decode for longer texts over the
+    full alphabet."""
+    res = vlib.tlc("search/MCTranscode", "C17_design", workers=12, timeout=3000, env={"C17_TABLES": tables})
+    if res.rc != 0:
+        raise vlib.ToolError("Transcode design invariant failed in C17_design:\n" + res.tail(60))
+    chk.add_tlc(res)
+    chk.extra["design_only_states"] = res.distinct
+    vlib.log("[%s] C17_design: %d states in %.1fs (design level only)" % (PID, res.distinct, res.wall))
+
+
 def main(tier):
     chk = vlib.Check(PID, tier)
     rep = Reporter(chk)
@@ -468,10 +490,12 @@ def main(tier):
     ]
     tables = write_tables()
     try:
+        coverage_run(chk, tables)
         if tier == "quick":
             explore(chk, rep, "C17_quick", tables, timeout=600, rg_limit=0)
         else:
             mutant_must_fail(tables)
+            design_run(chk, tables)
             explore(chk, rep, "C17_frag", tables, timeout=3000, rg_limit=0)
             explore(chk, rep, "C17_deep", tables, timeout=3000, rg_limit=60000)
     finally:
